@@ -240,8 +240,7 @@ fn finding_class(c: &Case, codes: &[String]) -> Option<&'static str> {
     }
     if has("E0428") {
         // the generated enum declares one identifier twice: two schema values with the same identifier after
-        // normalization (`self` / `Self`, `red` / `RED` under rust), or a value whose identifier is `Other`,
-        // the name of the catch-all variant
+        // normalization (`self` / `Self`, `red` / `RED` under rust)
         use heck::ToUpperCamelCase;
         let ident = |v: &str| if c.opts.normalization_rust { v.to_upper_camel_case() } else { v.to_string() };
         for t in &c.schema.types {
@@ -249,10 +248,8 @@ fn finding_class(c: &Case, codes: &[String]) -> Option<&'static str> {
                 if c.opts.extern_enums.contains(name) {
                     continue;
                 }
+                // (a value whose identifier would be `Other`, the catch-all variant, is escaped since fix 3ecb529)
                 let mut ids: Vec<String> = values.iter().map(|v| ident(v)).collect();
-                if ids.iter().any(|i| i == "Other") {
-                    return Some("enum-value-named-like-the-catch-all-variant");
-                }
                 let n = ids.len();
                 ids.sort();
                 ids.dedup();
@@ -356,8 +353,8 @@ fn corpus() -> Vec<(ASchema, ADoc, Opts, &'static str)> {
         (schema.clone(), ADoc { ops: vec![AOp { kind: "query", name: "list_items".into(), vars: vec![], sels: vec![fld("echo", vec![])] }], frags: vec![] }, Opts::default(), "operation-name-equals-its-module-name"),
         (collide_schema(vec!["self", "Self", "blue"]), enum_doc_c.clone(), both("Debug", "Debug", true), "enum-values-equal-after-normalization"),
         (collide_schema(vec!["self", "Self", "blue"]), enum_doc_c.clone(), both("Debug", "Debug", false), ""),
-        (collide_schema(vec!["Other", "blue"]), enum_doc_c.clone(), both("Debug", "Debug", false), "enum-value-named-like-the-catch-all-variant"),
-        (collide_schema(vec!["OTHER", "blue"]), enum_doc_c.clone(), both("Debug", "Debug", true), "enum-value-named-like-the-catch-all-variant"),
+        (collide_schema(vec!["Other", "blue"]), enum_doc_c.clone(), both("Debug", "Debug", false), ""),
+        (collide_schema(vec!["OTHER", "blue"]), enum_doc_c.clone(), both("Debug", "Debug", true), ""),
         (collide_schema(vec!["OTHER", "other", "blue"]), enum_doc_c.clone(), both("Debug", "Debug", false), ""),
     ]);
     fixed
